@@ -26,8 +26,10 @@ PROPS = {
                        "scheduler orders all accesses and would hide data races from the detector. Exploration: schedules are sampled."),
         "level_note": ("Trusted: the scheduler (hand-off over channels), deepDump (reflect+unsafe), the Go race detector (sound, not complete). Mode 3 is monitored real concurrency, not simulation: "
                        "its interleaving is not chosen by the seed and its replay re-runs the same assignment up to 20 times; results-equality checks in mode 3 are deterministic."),
-        "rule": ("Objects: a signed image parsed from a simulated medium (pegen layout or fixture, 1-2 signers), a signature database (3 variants), a signed-update value with its descriptor. "
-                 "Ops: Hash/Bytes/Open/Signatures/Verify(signer)/Verify(other); Bytes/Marshal/BytesExists(hit,miss)/SigDataExists/Exists; Marshal/Bytes/descriptor Marshal/Verify. "
+        "rule": ("Objects: a signed image parsed from a simulated medium (pegen layout or fixture, 1-2 signers), a signature database built through the API (3 variants) or decoded from a stream, a signature list, "
+                 "a signed-update value with its descriptor, a parsed PKCS7 and a parsed Authenticode object (each tied to its own copy of the input bytes). "
+                 "Ops: Hash/Bytes/Open/Signatures/Verify(signer)/Verify(other); Bytes/Marshal/BytesExists(hit,miss)/SigDataExists/Exists; list Bytes/Exists/ExistsInList/CmpHeader; Marshal/Bytes/descriptor Marshal/Verify; "
+                 "PKCS7 Verify/HasCertificate; Authenticode.Verify. Buffers handed to Marshal are overwritten and reused by the harness afterwards. "
                  "Non-trivial: mode 1 an operation repeated at least twice; mode 2 at least two clients and one context switch; mode 3 at least two clients. Distinct = distinct event-log hash; "
                  "distinct_schedules = distinct effective context-switch lists."),
         "exhaustive": lambda tier: False,
@@ -66,8 +68,9 @@ PROPS = {
         "level_note": ("Trusted: refcms (encoding/asn1 + crypto/rsa, written from RFC 2315/5652), the synctest fake clock, time/tzdata. Instants stop at 2049-12-31 (UTCTime limit of the "
                        "signingTime attribute, DESIGN.md section 6). The additionally returned *EFIVariableAuthentication2 is not part of the statement and not asserted on."),
         "rule": ("Per run: zone, instant, variable (predefined authenticated / any predefined / generated ASCII name 1-64, GUID, mask incl. APPEND_WRITE), payload (empty database, hash lists, "
-                 "certificate lists, raw bytes 0-1000), pool key (RSA 2048/3072/4096), API (SignEFIVariable or WriteSignedUpdate through the simulated filesystem). Every run is non-trivial "
-                 "(one signed update produced and judged); distinct = distinct event-log hash. A second engine runs the same generator with the zone taken from the TZ environment variable of the worker."),
+                 "certificate lists, raw bytes 0-1000), pool key (RSA 2048/3072/4096; self-signed and CA-issued certificates of 19 kinds incl. a 70 KB one), API (SignEFIVariable or WriteSignedUpdate through the "
+                 "simulated filesystem), 1-4 updates per run that stay alive to the end, seeded signer latency (simulated time passes inside Sign), optionally 2-3 interleaved signing goroutines. Every run is non-trivial "
+                 "(at least one signed update produced and judged); distinct = distinct event-log hash. A second engine runs the same generator with the zone taken from the TZ environment variable of the worker."),
         "exhaustive": lambda tier: False,
         "components": {"real": REAL, "stub": "synctest fake clock, time.Local / TZ zone configuration, simfs recorder (WriteSignedUpdate path)"},
         "assumptions": COMMON_ASSUMPTIONS,
@@ -83,7 +86,9 @@ PROPS = {
                        "encode->decode is the restart. Exploration: histories are sampled."),
         "level_note": ("Trusted: the abstract model (ordered entries), refesl. The position of an appended entry, which of two equal-header lists receives it, removal/query by PEM form and "
                        "Exists() across split lists are accepted either way because the statement does not fix them. A fresh valid append that fails without changing anything is counted, not flagged."),
-        "rule": ("Per run a swarm-selected subset of types/owners/operation kinds; start from empty, a repository fixture stream or a generated stream; 1-40 operations. "
+        "rule": ("Per run a swarm-selected subset of types/owners/operation kinds; start from empty, a repository fixture stream or a generated stream; 1-40 operations "
+                 "(Append, AppendSignature, Remove, RemoveSignature, BytesExists, SigDataExists, Exists, AppendList, AppendDatabase with the source kept alive, Restart through a caller buffer that is reused; "
+                 "lists built through the list-level API incl. removes, list restart and lists with a SignatureHeader). "
                  "Non-trivial: at least two successful mutations and a non-empty view at some step. Distinct = distinct event-log hash; model states = distinct structural snapshots of the database."),
         "exhaustive": lambda tier: False,
         "components": {"real": REAL, "stub": "none besides the reference model: the property has no I/O; restart = Bytes() -> ReadSignatureDatabase"},
@@ -99,7 +104,8 @@ PROPS = {
                        "register model; the recorded history is re-checked by porcupine. Exploration: histories are sampled, not enumerated."),
         "level_note": "Trusted: the register model (a map), refesl value builders, porcupine v1.3.0. APPEND_WRITE is not used (the statement is about plain and signed writes). Reads of never-written variables are not judged.",
         "rule": ("Per run: 1-3 of PK/KEK/db/dbx, optionally an ordinary predefined variable and a generated one; values from a small universe (hash databases of 0-9 entries, "
-                 "certificate databases, raw bytes of 0-400 bytes); ops WriteVar / WriteSignedUpdate / GetVar / GetVarWithAttributes / typed Get*. Non-trivial: a read of a "
+                 "certificate databases, multi-list databases, raw bytes of 0-400 bytes), optionally a second variable with the same name under another GUID; ops WriteVar / WriteSignedUpdate / "
+                 "WriteBlob (the same Marshallable object reused) / GetVar / GetVarInto (one destination object reused) / GetVarWithAttributes / typed Get* / Reopen; stores pre-populated with extra attribute bits. Non-trivial: a read of a "
                  "variable that has been written at least twice. Distinct = distinct event-log hash."),
         "exhaustive": lambda tier: False,
         "components": {"real": REAL + "; efivarfs/testfs as shipped (its own afero.MemMapFs)", "stub": "synctest fake clock (signing time, descriptor time), harness Marshallable/Unmarshallable, supervised worker process"},
@@ -118,7 +124,9 @@ PROPS = {
                        "reference path/GUID formatting in refvars.go. Extra open flag bits and read-only metadata calls are accepted; efi/efi.go Get* helpers are out of scope."),
         "rule": ("Grid: every predefined efivar definition x {obj,legacy} write APIs x values x with/without APPEND_WRITE x 4 efivars directories; reads x every stored-mask relation "
                  "(equal, superset, each required bit removed, disjoint, zero) x present/absent/0-3 byte files x decoder failure; name-resolving legacy entry points, "
-                 "WriteSignedUpdate, nine typed accessors. Then seeded sequences of 1-4 operations over generated definitions. Every case is non-trivial; "
+                 "WriteSignedUpdate, nine typed accessors, boot-entry sequences, every name-addressable variable plus near-miss names on the name-resolving legacy API, a machine without "
+                 "efivars directory. Then seeded sequences of 1-4 operations over generated definitions (incl. same name under two GUIDs) under seeded device behaviour: legal short reads, a device "
+                 "that accepts a short write, a missing directory, and 2-3 interleaved caller goroutines (every filesystem call is a yield point). Every case is non-trivial; "
                  "distinct = distinct event-log hash."),
         "exhaustive": lambda tier: False,
         "components": {"real": REAL, "stub": "simfs (recording afero.Fs over MemMapFs with seeded legal short reads), fwmodel (firmware contract), harness Marshallable/Unmarshallable, synctest clock for signed updates"},
@@ -136,10 +144,10 @@ PROPS = {
                        "(other images, payloads) and k-fault combinations beyond the sample."),
         "level_note": ("Trusted: the seam wrappers in /verif/sim/seams.go, the fault-free run as reference result, the worker write-ahead record for "
                        "attributing process deaths. Assumes faults are non-EOF errors; ioctl-based immutable-flag handling is not simulated."),
-        "rule": ("Operation instances (sign blob/image/variable, write variable on both APIs, signed update, read variable on both APIs and "
-                 "typed accessors, parse/hash/sign/verify image on fixtures and seeded generated images) are first run fault-free with "
+        "rule": ("Operation instances (sign blob/image/variable, write variable on both APIs, signed update, read variable on both APIs, "
+                 "typed accessors and the legacy efi.Get* helpers, parse/hash/sign/verify image, a six-step signing history and Authenticode.Verify on fixtures and seeded generated images) are first run fault-free with "
                  "counting seams to record the dependency-call sequence; then one case per (position k, fault kind[, byte count]) for "
-                 "EVERY position and every kind legal for that call (err; partial_err/short_nil with 1, 2, len-1 bytes; early_eof), plus "
+                 "EVERY position and every kind legal for that call (err; partial_err/short_nil with 1, 2, len-1 bytes; err_full = all bytes taken and an error; early_eof for file reads), plus "
                  "seeded multi-fault and persistent (device gone) sequences. A case is non-trivial when an injected fault actually fired "
                  "inside the operation; distinct = distinct (instance, fired fault list)."),
         "exhaustive": lambda tier: True,
